@@ -170,11 +170,24 @@ fn should_use_threaded_anon_gather(
     if !scope.path.contains('.')
         || choice_block_contains_nested_choices(choices)
         || choice_block_has_invisible_default(choices)
+        || choice_block_has_bracket_text(choices)
     {
         return false;
     }
 
     true
+}
+
+/// The threaded emission replays the start text for the output line; it has no place for
+/// `[choice-only]` or after-bracket text, so such blocks are emitted the ordinary way.
+fn choice_block_has_bracket_text(choices: &[Node]) -> bool {
+    choices.iter().any(|node| {
+        if let Node::Choice(choice) = node {
+            choice.has_choice_only_content
+        } else {
+            false
+        }
+    })
 }
 
 fn analyze_weave_choice_section<'a>(
